@@ -30,22 +30,28 @@ def random_config(kind, rnd, max_flen=16):
     else:
         c['biort'] = rnd.choice(['near_sym_a', 'near_sym_b', 'near_sym_b_bp', 'antonini', 'legall'])
         c['qshift'] = 'qshift_b_bp' if c['biort'] == 'near_sym_b_bp' else rnd.choice(['qshift_a', 'qshift_b', 'qshift_c'])
-        c['magbias'] = rnd.choice([1e-2, 1e-2, 1.0, 1e-3])
+        c['magbias'] = rnd.choice([1e-2, 1e-2, 1.0, 1e-3, 0.0])
         c['colour'] = rnd.random() < 0.3
         c['shape'] = [rnd.choice([8, 9, 12, 16, 20]), rnd.choice([8, 10, 13, 16])]
     return c
 
 
 class Adapter:
-    def __init__(self, cell, build_dtype=None, convert=None):
+    def __init__(self, cell, build_dtype=None, convert=None, mod=None):
         import torch
         import pytorch_wavelets as pw
         from pytorch_wavelets.dwt.transform2d import SWTForward
         self.cell = cell
         k = cell['kind']
         bd = build_dtype or torch.float64
-        with util.default_dtype(bd):
-            if k == 'dwt1f':
+        import contextlib
+        if mod is not None:
+            self.mod = mod            # an existing module instance shared with other adapters (other shapes)
+        # (no touching of torch's process-global default dtype when nothing is constructed)
+        with (contextlib.nullcontext() if mod is not None else util.default_dtype(bd)):
+            if mod is not None:
+                pass
+            elif k == 'dwt1f':
                 self.mod = pw.DWT1DForward(J=cell['J'], wave=cell['wave'], mode=cell['mode'])
             elif k == 'dwt1i':
                 self.mod = pw.DWT1DInverse(wave=cell['wave'], mode=cell['mode'])
